@@ -101,6 +101,16 @@ func (f *frame) doCall(cm *ssa.CallCommon, pos token.Pos, st *State, b *ssa.Basi
 	for _, a := range cm.Args {
 		args = append(args, f.val(a))
 	}
+	if inRepo(callee) {
+		for i, a := range cm.Args {
+			if args[i].T == "" && args[i].LV != nil {
+				if key, ok := f.embeddedExternalPointer(a, args[i]); ok {
+					args[i].T = key
+					args[i].LV = nil
+				}
+			}
+		}
+	}
 	if !inRepo(callee) {
 		// a function literal handed to a library function (regexp.ReplaceAllStringFunc, sort.Slice, ...) may be
 		// called by it any number of times: everything the literal (transitively) may write is havocked
@@ -650,4 +660,43 @@ func gseqHeaps(g *Gen, name string) (n, seq string) {
 	g.TE.noteHeapRaw(n, SInt)
 	g.TE.noteHeapRaw(seq, "(Array Int Iface)")
 	return
+}
+
+
+// embeddedExternalPointer: `&x.F` where x points to an object of a library type and F is an embedded struct of a
+// library type (e.g. &readCloser.Reader handed to a function that wants a *zip.Reader). The callee sees the struct
+// through the heaps of the field's own type, so the pointer must be a first-class reference: the interior key of
+// (x, F). This is sound only if the caller never touches x.F.* through x (the flattened heaps of x's type would be a
+// second, unrelated copy): any other access to field F of the same base value in the caller is outside the subset.
+func (f *frame) embeddedExternalPointer(a ssa.Value, v Val) (string, bool) {
+	fa, ok := a.(*ssa.FieldAddr)
+	if !ok || v.LV == nil || v.LV.Base == "" || strings.HasPrefix(v.LV.Path, "G:") || strings.Contains(v.LV.Path, ".") {
+		return "", false
+	}
+	bt, ok := fa.X.Type().Underlying().(*types.Pointer)
+	if !ok {
+		return "", false
+	}
+	bn, ok := bt.Elem().(*types.Named)
+	if !ok || bn.Obj().Pkg() == nil || strings.HasPrefix(bn.Obj().Pkg().Path(), "github.com/zerx-lab/wordZero") {
+		return "", false
+	}
+	st, ok := bn.Underlying().(*types.Struct)
+	if !ok {
+		return "", false
+	}
+	fld := st.Field(fa.Field)
+	fn, ok := fld.Type().(*types.Named)
+	if !ok || !isStruct(fld.Type()) || fn.Obj().Pkg() == nil || strings.HasPrefix(fn.Obj().Pkg().Path(), "github.com/zerx-lab/wordZero") {
+		return "", false
+	}
+	if refs := fa.X.Referrers(); refs != nil {
+		for _, r := range *refs {
+			if o, ok := r.(*ssa.FieldAddr); ok && o != fa && o.Field == fa.Field {
+				subsetf("field %s of a library object is both passed as a pointer and accessed directly in %s", fld.Name(), f.fn)
+			}
+		}
+	}
+	f.c.assumed["a pointer to a library struct embedded in a library object (&x."+fld.Name()+") is modelled as a reference of its own (the caller does not access the embedded struct through x: checked)"] = true
+	return interiorKey(v.LV.Base, v.LV.Path), true
 }
